@@ -449,12 +449,32 @@ func (p *Pkg) Atoms() []*Atom {
 		var scal, lls, ents, nest []*Atom
 		p.derive(p.RootType, p.RootSchema(), nil, nil, 0, true, &scal, &lls, &ents, &nest)
 		all := append(append(append(scal, lls...), ents...), nest...)
-		for i, a := range all {
+		for _, a := range all {
+			// the deliberately exposed ordered list /top/olx (DESIGN.md section 7) is kept out of
+			// the default alphabet; C02 drives it in a dedicated sub-check.
+			exposed := false
+			for _, s := range a.Steps {
+				if s.Field == "Olx" {
+					exposed = true
+				}
+			}
+			if exposed {
+				p.exposed = append(p.exposed, a)
+			} else {
+				p.atoms = append(p.atoms, a)
+			}
+		}
+		for i, a := range p.atoms {
 			a.ID = i
 		}
-		p.atoms = all
 	})
 	return p.atoms
+}
+
+// ExposedAtoms returns the atoms of the deliberately exposed ordered list (not in Atoms()).
+func (p *Pkg) ExposedAtoms() []*Atom {
+	p.Atoms()
+	return p.exposed
 }
 
 func stepsName(steps []Step) string {
